@@ -19,6 +19,8 @@ From Coq.Strings Require Import Byte.
 From Muduo Require Import Conn_Model Conn_Proofs C02_Proofs.
 Import ListNotations.
 
+Module One.   (* part 1: one connection *)
+
 (* ---- UP exactly once, before everything else ------------------------------------------------ *)
 Theorem C02_up_once_first : forall mark wc hw ops c e,
   run (init mark wc hw) ops = Ok (c, e) ->
@@ -173,3 +175,141 @@ Proof.
   exists c. assert (Hr : reach c) by (eapply run_reach; [apply reach_init|exact E]).
   vm_compute in E. injection E as <- _. split; [exact Hr|]. vm_compute. repeat split; discriminate.
 Qed.
+
+End One.
+
+(* ============================================================================================
+   Part 2: the OWNERS.  C02_Model: one TcpServer on an acceptor loop (0) with nio io loops,
+   one TcpClient on loop 0, every connection they create, every loop's functor queue
+   (pendingFunctors_ / the swapped-out batch / the functors of the batch that already ran),
+   the shared_ptr holders of every connection (DERIVED: map entry + user references + foreign
+   calls in progress + strong functors anywhere in a loop) and the EPollPoller registration of
+   every channel.  [step strict s o]: one atomic step - an owner call on the acceptor loop, one
+   functor of one loop's batch (Swap / Run / EndBatch), one poller event, one loop-thread API
+   call, one micro-step (XBegin = take a reference + read state_, XStore = setState,
+   XEnq = queueInLoop/runAfter + return) of an API call on a foreign thread, UGrab / UDrop of
+   a user reference.  A connection is destroyed by [finish] exactly when [holders] is 0, on the
+   thread of the step that dropped the last holder; [kill] is the only source of close(fd).
+   [Fault] = an assert of the C++ fails or a destroyed object is used.
+   [strict = true] adds the environment hypotheses (ops outside them are Rejected):
+     H1  a foreign caller of send/shutdown/startRead/stopRead keeps its reference until its
+         raw-this functor has run (XEnq _ true);
+     H2  ~TcpServer is not run while a removeConnectionInLoop hop or a forceCloseInLoop functor
+         is queued, and no peer close reaches a connection of a destroyed server before its
+         queued connectDestroyed ran (TcpServer.cc "FIXME: unsafe");
+     H3  no loop-thread state change between the state test and the setState of a foreign
+         shutdown()/forceClose()/forceCloseWithDelay() (finding F-19);
+     H4  ~TcpClient only when its connection has no holder besides the client and user
+         references, and the user does not drop its last reference to a connection that
+         outlived its client while it is still up (finding F-20);
+     H5  (only for the poller before the fix of F-15, readd = true) no HUP is delivered to a
+         channel whose interest is empty.
+   Each hypothesis is needed: the _refuted theorems below give the op list that fails without
+   it, and corpus/C02/sys replays each of them on the real code.
+   ============================================================================================ *)
+From Muduo Require Import C02_Model C02_SysProofs C02_GenTie Gen_C02.
+
+(* ---- no assertion fails, no destroyed object is used: every op list, every number of loops --- *)
+Theorem C02_sys_no_assert_reachable_partial : forall nio readd ops, run true (init_sys nio readd) ops <> Fault.
+Proof. exact S02_no_fault. Qed.
+Print Assumptions C02_sys_no_assert_reachable_partial.
+
+Theorem C02_sys_step_never_faults_partial : forall s o, sreach s -> step true s o <> Fault.
+Proof. exact S02_step_no_fault. Qed.
+Print Assumptions C02_sys_step_never_faults_partial.
+
+(* ---- affinity: with or without the hypotheses, every UP / DOWN / message callback of a
+   connection is emitted on the thread of the loop the connection was assigned to ------------- *)
+Theorem C02_affinity : forall strict nio readd ops s obs, run strict (init_sys nio readd) ops = Ok (s, obs) ->
+  forall thr c, In (OUp thr c) obs \/ In (ODown thr c) obs \/ In (OMsg thr c) obs ->
+  exists k, getc s c = Some k /\ k_loop k = thr.
+Proof. exact S02_affinity. Qed.
+Print Assumptions C02_affinity.
+
+Theorem C02_affinity_step : forall strict s o s' obs, step strict s o = Ok (s', obs) ->
+  forall thr c, In (OUp thr c) obs \/ In (ODown thr c) obs \/ In (OMsg thr c) obs ->
+  exists k, getc s' c = Some k /\ k_loop k = thr.
+Proof. exact S02_affinity_step. Qed.
+Print Assumptions C02_affinity_step.
+
+(* ---- destroyed at most once, close(fd) exactly then, and only when Disconnected, removed
+   from its loop (Channel::remove ran, i.e. after the queued connectDestroyed) and not in the
+   epoll set; while it lives it has a holder, and the holders are exactly the owner's entry,
+   the user references, the foreign calls in progress and the strong functors --------------- *)
+Theorem C02_destroyed_once_after_unregister : forall s c k, sreach s -> getc s c = Some k ->
+  k_dtors k <= 1 /\ k_closes k = k_dtors k /\ (k_dtors k = 1 <-> k_alive k = false) /\
+  (k_alive k = false -> k_st k = Disconnected /\ k_added k = false /\ k_inset k = false /\ holders s c = 0) /\
+  (k_alive k = true -> 1 <= holders s c) /\
+  (k_alive k = true -> holders s c = (if k_mapped k then 1 else 0) + k_urefs k + count_calls c (s_calls s) + allN (holds c) s).
+Proof. exact S02_destroyed_once. Qed.
+Print Assumptions C02_destroyed_once_after_unregister.
+
+(* ---- no leak ---------------------------------------------------------------------------------- *)
+Theorem C02_no_leak : forall s, sreach s -> quiescent s -> forall c k, getc s c = Some k ->
+  (k_alive k = true /\ k_mapped k = true /\ up_k k /\ owner_alive s c k) \/
+  (k_alive k = false /\ k_dtors k = 1 /\ k_closes k = 1 /\ k_st k = Disconnected /\ k_added k = false /\ k_inset k = false).
+Proof. exact S02_no_leak. Qed.
+Print Assumptions C02_no_leak.
+
+Theorem C02_quiescent_def : forall s, quiescent s <->
+  (forall l v, getl s l = Some v -> q_all v = []) /\ s_calls s = [] /\ (forall c k, getc s c = Some k -> k_urefs k = 0).
+Proof. intros s. reflexivity. Qed.
+Print Assumptions C02_quiescent_def.
+
+(* ---- since the fix of F-15 a descriptor in the epoll set always has interest (H5 is vacuous) -- *)
+Theorem C02_registered_has_interest : forall s c k, sreach s -> s_readd s = false -> getc s c = Some k ->
+  k_alive k = true -> k_inset k = true -> k_wr k = true \/ k_rd k = true.
+Proof. exact S02_inset_has_interest. Qed.
+Print Assumptions C02_registered_has_interest.
+
+(* ---- what fails outside the hypotheses (all replayed on the real code) ----------------------- *)
+(* H2: residue R-1, ~TcpServer with a hop or a forced close in flight: use of the freed server *)
+Theorem C02_server_lifetime_refuted : run false (init_sys 1 false) w_server_lifetime = Fault /\
+  run false (init_sys 1 false) w_server_lifetime2 = Fault /\
+  run true (init_sys 1 false) w_server_lifetime = Rejected /\ run true (init_sys 1 false) w_server_lifetime2 = Rejected.
+Proof. exact W_server_lifetime. Qed.
+Print Assumptions C02_server_lifetime_refuted.
+
+(* H1: residue R-2, a raw-this functor outlives the object *)
+Theorem C02_raw_functor_refuted : run false (init_sys 0 false) w_raw_functor = Fault /\ run true (init_sys 0 false) w_raw_functor = Rejected.
+Proof. exact W_raw_functor. Qed.
+Print Assumptions C02_raw_functor_refuted.
+
+(* H3: finding F-19, the second DOWN *)
+Theorem C02_down_once_foreign_refuted : (exists s o, run false (init_sys 0 false) w_f19 = Ok (s, o) /\ count_down 0 o = 2) /\
+  run true (init_sys 0 false) w_f19 = Rejected.
+Proof. exact W_f19. Qed.
+Print Assumptions C02_down_once_foreign_refuted.
+
+(* H4: finding F-20, destroyed while kConnected *)
+Theorem C02_client_unique_refuted : run false (init_sys 0 false) w_f20 = Fault /\ run true (init_sys 0 false) w_f20 = Rejected.
+Proof. exact W_f20. Qed.
+Print Assumptions C02_client_unique_refuted.
+
+(* H5: finding F-15 (fixed): with the old poller the HUP reaches handleClose twice; with the current one the event is not deliverable *)
+Theorem C02_hup_empty_interest_refuted : run false (init_sys 0 true) w_f15 = Fault /\ run true (init_sys 0 true) w_f15 = Rejected /\
+  run false (init_sys 0 false) w_f15 = Rejected.
+Proof. exact W_f15. Qed.
+Print Assumptions C02_hup_empty_interest_refuted.
+
+(* ---- the generated facts the model builds in -------------------------------------------------- *)
+Theorem C02_gen_tie :
+  server_establish_runInLoop = true /\ server_remove_hop_runInLoop = true /\ server_destroy_queueInLoop = true /\
+  server_dtor_runInLoop = true /\ client_remove_queueInLoop = true /\ detail_remove_queueInLoop = true /\
+  client_establish_direct = true /\ client_unique_before_copy = true /\ client_dtor_forceClose = true /\
+  socket_dtor_closes = true /\ channel_event_locks_tie = true /\ epoll_registers_empty_interest = false.
+Proof.
+  exact (conj tie_server_establish_runInLoop (conj tie_server_remove_hop_runInLoop (conj tie_server_destroy_queueInLoop
+        (conj tie_server_dtor_runInLoop (conj tie_client_remove_queueInLoop (conj tie_detail_remove_queueInLoop
+        (conj tie_client_establish_direct (conj tie_client_unique_before_copy (conj tie_client_dtor_forceClose
+        (conj tie_socket_dtor_closes (conj tie_channel_event_locks_tie tie_epoll_registers_empty_interest))))))))))).
+Qed.
+Print Assumptions C02_gen_tie.
+
+(* ---- non-vacuity: three connections on three loops, a server, a client, a foreign shutdown in
+   its micro-steps, a user reference, server and client destruction; every op accepted under
+   the hypotheses; the end state is quiescent (so C02_no_leak applies to a reached state) ----- *)
+Example ex_owners_run : exists s o, run true (init_sys 2 false) ex_sys_ops = Ok (s, o) /\
+  o = [OUp 0 2; OUp 1 0; OMsg 1 0; ODown 1 0; ODtor 100 0 true; OUp 2 1; ODown 2 1; ODtor 2 1 true; ODown 0 2; ODtor 0 2 true] /\
+  (forall l v, getl s l = Some v -> q_all v = []) /\ s_calls s = [].
+Proof. exact ex_sys_run. Qed.
